@@ -252,8 +252,9 @@ fn judge_trace<K: Kit>(prop: StepProp, ctx: &Ctx, b: &mut Batch, kit: &K, case: 
                 if name == "goal_tree" {
                     // root must be one of the goal samples handed out, and satisfy the goal
                     let root = &tree[0].s;
-                    // ... handed out during the setup of *this* segment
-                    let known = tr.setup_goal_samples.iter().any(|f| bits_eq(f, root));
+                    // ... handed out since the setup of *this* segment began (an implementation
+                    // may also choose the root lazily in its first iteration)
+                    let known = tr.setup_goal_samples.iter().any(|f| bits_eq(f, root)) || tr.recs.iter().any(|r| matches!(&r.ev, Ev::GoalSample(f) if bits_eq(f, root)));
                     if !known || tree[0].parent.is_some() {
                         j.viol(StepProp::C15, "goal_tree:root-is-not-a-goal-sample", format!("root {:?}", root), si);
                     }
